@@ -8,7 +8,7 @@ import numpy as np
 import pandas as pd
 
 from harness import gen
-from harness.common import drv, guarded
+from harness.common import drv, guarded, run_check
 
 PID = "C20"
 THEOREMS = ["binnify_eq_spec", "tilingSpec_get", "tilingSpec_last_stop", "getBinsize_truthful",
@@ -249,7 +249,7 @@ def escalate(name, case, rng):
         return None
     worker_init()
     for bins in itertools.chain([case["bins"]], all_segmentations(7, 2)):
-        r = _binsize_truthful({"bins": bins})
-        if r and r.get("mismatch"):
+        r = run_check(_binsize_truthful, {"bins": bins})
+        if r:
             return {"check": "binsize_truthful", "case": {"bins": bins}, "result": r}
     return None
